@@ -216,6 +216,16 @@ def disjunctive_facts(B, bb):
     return out
 
 
+_COMB_SKIP = {}
+
+
+def _comb_skip(F):
+    import siteguard as _sg
+    if id(F) not in _COMB_SKIP:
+        _COMB_SKIP[id(F)] = _sg.comb_closures(F)
+    return _COMB_SKIP[id(F)]
+
+
 def collect_err_guards(F, cg):
     res = {}
     for name in cg.names():
@@ -225,11 +235,20 @@ def collect_err_guards(F, cg):
             continue
         if inline.is_new_helper(F, name) or (b['kind'] == 'Closure' and inline.is_new_helper(F, b.get('root', ''))):
             continue          # attributed to the frozen functions that call it
+        import siteguard as _sg
+        if name in _comb_skip(F):
+            continue          # the closure of ok_or_else / map_err / map ...: its exits belong to the function that calls the combinator
         for B, i, t, facts, _inl in inline.walk_calls(F, cg, name, structural_facts, canon_fact):
             c = t.get('callee') or ''
+            if c in _sg.COMB and t.get('callable_args'):
+                for CB, ci, ct, cfacts, ups, camap in _sg.comb_sites(F, cg, B, i, t, facts):
+                    cc = ct.get('callee') or ''
+                    if cc.startswith(ERR_CTORS):
+                        res.setdefault('%s|%s' % (name, cc.split('::')[-1]), []).append(sorted({_sg.rewrite_comb(f) for f in cfacts}))
+                continue
             if not c.startswith(ERR_CTORS):
                 continue
-            res.setdefault('%s|%s' % (name, c.split('::')[-1]), []).append(facts)
+            res.setdefault('%s|%s' % (name, c.split('::')[-1]), []).append(sorted({_sg.rewrite_comb(f) for f in facts}))
     for k in res:
         res[k] = sorted(res[k])
     return res
